@@ -22,7 +22,12 @@ META = {
             "outstanding id, and calls answered after up to 1023 younger ones, are part of the histories). The model is tied to /repo on every run by statement skeletons regenerated from transport.go "
             "(ownership of the pending table, order of the type check, fetch-removes, error assignment before "
             "done) and by scripted adversarial-peer histories run against the real transport and replayed inside "
-            "Coq.",
+            "Coq. How the bytes of a reply are cut into reads does not matter: handleMessage makes no read of its own "
+            "on the frame reader and every read of the decoder is a full read (read off the source), delivery with a "
+            "full read of the header is a function of the frame's bytes alone, and a header fetched with a single "
+            "Read is kept as a refuted counter-model; in the histories the peer sends replies in one websocket frame "
+            "or in two fragments (first fragment 1, 5, 9, 10, 11 bytes) and the transport's connection delivers "
+            "everything or at most 1, 7, 9, 10, 11, 64 bytes per Read.",
     "note": "Trusted: Coq kernel + vm_compute; translator gen/sni_rpc.go; harness/cmd/c03 + sniproxy/verif_rpc.go; "
             "goroutine interleavings are abstracted to the wire order of requests and replies (justified by the "
             "ownership obligations on the skeleton, exercised by concurrent callers); gorilla/websocket framing and "
@@ -220,8 +225,13 @@ def impl_oracle(c):
                     and first["kind"] in ("good", "tail", "dup") and not fatal_before(first["at"]):
                 if x["res"] != "ok" or (x.get("fields") or []) != (first.get("fields") or []):
                     out.append(("answered-not-completed",
-                                "call %d was answered by the peer (frame %s) while the transport was up, "
-                                "but returned %s" % (k, first["kind"], x["res"])))
+                                "call %d was answered by the peer (frame %s, %d bytes, sent as %s; the transport's "
+                                "connection delivers %s per Read) while the transport was up, but returned %s"
+                                % (k, first["kind"], first.get("len", 0),
+                                   {"": "one websocket frame"}.get(first.get("shape", ""),
+                                       "two fragments, the first of %s bytes" % first.get("shape", "")[5:]),
+                                   "at most %d bytes" % c["chunk"] if c.get("chunk") else "whatever has arrived",
+                                   x["res"])))
     return out
 
 
@@ -288,7 +298,12 @@ def run(ck):
         nframes = len(c.get("frames", []))
         trivial = len(c.get("callers", [])) <= 1 and nframes <= 1 and c["stream"] not in ("stress", "page")
         # (the key does not depend on the order in which concurrent callers reached the wire)
-        ck.count(c["stream"], key=json.dumps([c["steps"], [(x["k"], x["res"]) for x in c["callers"]]],
+        sh = ck.coverage.setdefault("reply_transport_shapes", {})
+        for f in c.get("frames", []):
+            if f.get("kind") != "text":
+                kk = "%s / reads of %s" % (f.get("shape") or "one frame", c.get("chunk") or "any size")
+                sh[kk] = sh.get(kk, 0) + 1
+        ck.count(c["stream"], key=json.dumps([c["steps"], c.get("chunk"), [(x["k"], x["res"]) for x in c["callers"]]],
                                              sort_keys=True), trivial=trivial)
         for f in c.get("frames", []):
             kinds[f["kind"]] = kinds.get(f["kind"], 0) + 1
